@@ -122,21 +122,21 @@ impl Scaled {
     }
 
     /// TeX.2021.105
-    pub fn nx_plus_y(self, mut n: i32, y: Scaled) -> Result<Scaled, OverflowError> {
-        let max_answer = Scaled::MAX_DIMEN;
+    ///
+    /// Knuth negates the operands and divides in order to stay within 32 bits;
+    /// as in [`Scaled::xn_over_d`] we simply use 64-bit integers.
+    /// The verdict is the same, and it is also defined when an operand is
+    /// `i32::MIN` (which cannot be negated).
+    pub fn nx_plus_y(self, n: i32, y: Scaled) -> Result<Scaled, OverflowError> {
         if n == 0 {
             return Ok(y);
         }
-        let mut x = self;
-        if n < 0 {
-            n = -n;
-            x = -x;
+        // can't overflow because |x|,|n|,|y|<=2^31
+        let b = (self.0 as i64) * (n as i64) + (y.0 as i64);
+        if b < -(Scaled::MAX_DIMEN.0 as i64) || b > Scaled::MAX_DIMEN.0 as i64 {
+            return Err(OverflowError {});
         }
-        if x <= (max_answer - y) / n && -x <= (max_answer + y) / n {
-            Ok(x * n + y)
-        } else {
-            Err(OverflowError {})
-        }
+        Ok(Scaled(b.try_into().expect("b in (-2^30, +2^30)")))
     }
 
     /// Parses a scaled number from a string of the form `<integer>[.<fraction>]<unit>`.
